@@ -373,6 +373,8 @@ def run(repo, rep):
              '(AR-8: by role, decided from an attribute that is actually defined)', 100)
     rep.rule('C04.T5', 'a key outside the table has no effect on wire, user, transport or state', 1)
     rep.rule('C04.T0', 'every action method is summarised without unknown effects', 28)
+    rep.rule('C04.T6', 'the transition table is written by the constructor only: nothing else assigns, updates or removes '
+             'entries after construction (the table the analysis read is the table that is used)', 1)
 
     # T1
     for (e, s), action_id in sorted(ps3_8.TABLE.items()):
@@ -388,6 +390,30 @@ def run(repo, rep):
     for en, sn in model.table_dupes:
         rep.bad('C04.T1', TABLE_KEY % (en, sn) + ':duplicate', model.sm.loc(),
                 'key (%s, %s) occurs twice in the dict literal; the later entry wins silently' % (en, sn))
+
+    # T6: who may write the table
+    init_f = model.sm.find_method('__init__')
+    allowed = {hf.key for hf in repo.helper_closure(init_f)} if init_f is not None else set()
+    writers = []
+    for f2 in repo.all_functions():
+        if f2.key in allowed:
+            continue
+        for n in ast.walk(f2.node):
+            tgt = None
+            if isinstance(n, (ast.Assign, ast.AugAssign, ast.Delete)):
+                tgts = n.targets if isinstance(n, (ast.Assign, ast.Delete)) else [n.target]
+                for t in tgts:
+                    base = t.value if isinstance(t, ast.Subscript) else t
+                    if isinstance(base, ast.Attribute) and base.attr == 'transition_table':
+                        tgt = norm(t)
+            elif isinstance(n, ast.Call) and isinstance(n.func, ast.Attribute) and n.func.attr in (
+                    'update', 'pop', 'popitem', 'clear', 'setdefault', '__setitem__', '__delitem__') \
+                    and isinstance(n.func.value, ast.Attribute) and n.func.value.attr == 'transition_table':
+                tgt = norm(n.func)
+            if tgt:
+                writers.append('%s writes %s (line %d)' % (f2.key, tgt, n.lineno))
+    rep.check(not writers, 'C04.T6', 'fsm:StateMachine.transition_table:writers', model.sm.loc(),
+              'only the constructor writes the table', '; '.join(writers))
 
     # T0: all action methods summarised
     import re as _re
